@@ -273,10 +273,12 @@ func c17GenSpec(g *simcore.Tape, id string, h2 bool, maxBody int, re *regexp.Reg
 		}
 	}
 	sp.BodyLen = len(sp.Body)
-	if h2 && len(sp.Body) == 0 {
-		// An empty chunked upstream reply lets httputil.ReverseProxy's immediate-flush timer goroutine race
-		// with the returning handler (the client then sees either "Content-Length: 0" or an empty chunked
-		// body): framing only, but it would make the trace depend on the Go scheduler.
+	if h2 && (len(sp.Body) == 0 || sp.CT == nil) {
+		// A chunked upstream reply makes httputil.ReverseProxy start an immediate-flush timer goroutine that
+		// races with the handler's first Write (Go scheduler, not driver): with an empty body the client sees
+		// either "Content-Length: 0" or an empty chunked body, without a Content-Type net/http sniffs one or
+		// not. Neither concerns the property, but both would make the trace depend on the Go scheduler,
+		// so such replies always declare their length.
 		sp.HasCL = true
 	}
 	return sp
